@@ -59,18 +59,18 @@ theorem listSet_frame (w : W) (n : String) : Frame w (w.listSet n).1 := by
       · exact ⟨rfl, rfl, rfl⟩
       · split <;> exact ⟨rfl, rfl, rfl⟩
 
+@[simp] theorem applyList_desired (c : Cfg) (F : Felix) (n : String) (lr : LR) :
+    (F.applyList c n lr).1.desired = F.desired := by
+  cases lr with
+  | notFound => simp [Felix.applyList]
+  | failNoOutput => rfl
+  | listed m ms failed =>
+    simp only [Felix.applyList]
+    split <;> simp
+
 theorem resyncIPSet_frame (w : W) (n : String) : Frame w (w.resyncIPSet n).1 := by
   unfold W.resyncIPSet
   have h := listSet_frame w n
-  generalize w.listSet n = r at h
-  obtain ⟨w1, lr⟩ := r
-  dsimp only at h ⊢
-  cases lr with
-  | notFound => exact ⟨h.1, by simpa using h.2.1, h.2.2⟩
-  | failNoOutput => exact ⟨h.1, h.2.1, h.2.2⟩
-  | listed m ms failed =>
-    dsimp only
-    refine ⟨h.1, ?_, h.2.2⟩
-    split <;> simp [h.2.1]
+  exact ⟨h.1, by simp [h.2.1], h.2.2⟩
 
 end CalicoVerif.C16
